@@ -182,3 +182,14 @@ func installStringModels(m *Machine) {
 	}
 	m.Hooks["errors.New"] = m.Hooks["fmt.Errorf"]
 }
+
+// initState returns a fresh state in which the initialisers of the given
+// repository packages have been interpreted (package-level tables exist).
+func initState(m *Machine, pkgs ...string) *State {
+	st := &State{Heap: map[int]*HObj{}, Notes: map[string]bool{}, Globals: map[*ssa.Global]int{}}
+	if why := m.InitPackages(st, pkgs...); why != "" {
+		st.Status = stStuck
+		st.Msg = why
+	}
+	return st
+}
